@@ -17,7 +17,7 @@ CHECKS = {
              "ops-table and attribute callbacks by function-pointer propagation, OpenSSL/c-ares callbacks by a model table) no blocking "
              "primitive (poll/epoll_wait/select with a non-zero timeout, sleep family, synchronous resolver calls, ...) is reachable "
              "from any non-blocking API entry when every test of the socket's blocking flag is folded to false; and every descriptor "
-             "is created with its *_NONBLOCK flag and never switched back. All paths, all states, all transports - which no test run can enumerate.",
+             "is created with its *_NONBLOCK flag and never switched back. All paths, all states, all transports - which no test run can enumerate. (R3) no attribute setter can answer a positive status: the attribute-map walk stops on any non-zero status but fails only on a negative one, so xcm.blocking=false from the map is applied or the call fails.",
         note=TRUSTED + " A libc/OpenSSL/c-ares function that is not in the blocking table is assumed not to wait for an external event.",
         technique="call-graph reachability with guard folding (static analysis over clang AST/CFG)",
         design="3/C05"),
@@ -31,7 +31,7 @@ CHECKS["C10"] = dict(
          "the attribute types and tests length, syntax, existence, node kind, writability and type, each with its documented errno, before the "
          "setter runs; (R4) fixed-size setters read at most sizeof(type); (R5) a setter that rejects has not modified the socket; (R6) every "
          "array access of the name parser is in bounds (record invariant num_comps <= 64 checked at every store). Not decided: attribute "
-         "values, behaviour of getters in every connection state (nullness of OpenSSL objects).",
+         "values, behaviour of getters in every connection state (nullness of OpenSSL objects). (R1 also) internal buffers on the transports' getter paths are armed (defect F20 repaired); (R10) the log formatter that records a rejected attribute name is bounded for any name length, sizes computed as unsigned differences proved not to wrap.",
     note=TRUSTED + " Pointer parameters of different names are assumed not to alias; the sizes written by libc sinks are taken from their man pages.",
     technique="bounded-write dataflow (difference constraints) + guard-ordering/dominance checks + path exploration",
     design="3/C10")
@@ -42,7 +42,7 @@ CHECKS["C12"] = dict(
          "(R3) every write is within its buffer and the only thing a public entry demands from its caller is the documented (buffer, capacity) "
          "contract (bounded-write analysis; the DNS-name length lemma is derived from xcm_dns_is_valid_name's body); (R4) each of the eight "
          "transport names is validated by the parser for that name; (R5) UX/UXF makers reject over-long names first. Not decided: that make and "
-         "parse are inverses for all inputs (a relation between two computations), inet_pton/inet_ntop.",
+         "parse are inverses for all inputs (a relation between two computations), inet_pton/inet_ntop. (R3 also) index stores through the (buffer, capacity) parameters; (R7) the white-space predicate in front of every parser covers all six C white-space characters.",
     note=TRUSTED + " A parse cursor s+k is assumed to stay inside its string when string lengths are compared (strlen(s+k) <= strlen(s)).",
     technique="bounded-write/value-range dataflow + idiom checks decided from path facts + table agreement",
     design="3/C12")
@@ -63,7 +63,7 @@ CHECKS["C03"] = dict(
          "test sees the errno of the failing call (logging is derived errno-transparent from its save/restore bracket on every run); the "
          "length validated is the length sent (no unguarded narrowing); UX send is one send(2) with MSG_NOSIGNAL|MSG_EOR; and blocking "
          "xcm_send does not report failure for an accepted message because its wait failed (known finding K3). and never offers the caller's buffer to the transport again after it was accepted; Not decided: exactly-once "
-         "delivery (needs both endpoints and the schedule).",
+         "delivery (needs both endpoints and the schedule). (R8) every failing path of btcp_send/btls_send with errno possibly other than EAGAIN has put the connection into a terminal state (the framing layer keeps the buffered frame on such a failure).",
     note=TRUSTED + " send(2) on SOCK_SEQPACKET is all-or-nothing; mbuf_set copies into XCM-owned storage.",
     technique="path-sensitive typestate exploration with inlining, errno-source tracking, value-range dataflow",
     design="3/C03")
@@ -87,7 +87,7 @@ CHECKS["C07"] = dict(
          "point with 32-bit wrap-around) and must equal [1, max_msg], which is what the sender's guard establishes at acceptance; every "
          "lower-layer read goes to the mbuf's write cursor with exactly the spare capacity ensured before and asks for exactly the missing "
          "part of the header/payload; the sticky flag is only ever set and is tested before the sub-socket is used; a TLS protocol error drains OpenSSL's per-thread error queue on every "
-         "path. Not decided: crashes inside OpenSSL/c-ares, pointer arithmetic outside the modelled sinks.",
+         "path. Not decided: crashes inside OpenSSL/c-ares, pointer arithmetic outside the modelled sinks. (R7) the peer certificate's fields are formatted within their buffers: hash_description call sites proved for 3n+1 bytes, log_tls.c and cert.c analysed with the bounded-write engine.",
     note=TRUSTED + " The final implication from these premises to 'no out-of-bounds write for any byte stream' (payload_len + 4 <= MBUF_WIRE_MAX, "
          "buffered <= announced) is argued in DESIGN.md section 3/C07, not mechanised.",
     technique="path-sensitive typestate exploration with inlining + exact predicate folding + bounded-write dataflow",
@@ -100,7 +100,7 @@ CHECKS["C01"] = dict(
          "buffer on every path, reads ask for exactly the missing part and a short read is never success; nothing larger than capacity is "
          "returned; the header codec of writer and readers agrees; the blocking message loop hands a message over exactly once and the "
          "byte-stream loop adds only non-negative results; UTLS uses its single active leg; UX is SEQPACKET with MSG_EOR/MSG_TRUNC. "
-         "Not decided: equality of the two endpoints' message sequences under all schedules (a relation between run-time histories).",
+         "Not decided: equality of the two endpoints' message sequences under all schedules (a relation between run-time histories). Also (R11) send/receive/finish of the framework are followed by the socket's update on every path, so a partly written frame is flushed when xcm_fd() fires; (R12) a byte-stream send failure other than EAGAIN leaves the connection terminal, so a message whose send was reported as failed is never delivered later.",
     note=TRUSTED + " Kernel SEQPACKET semantics and OpenSSL below btls are trusted.",
     technique="path-sensitive typestate exploration with inlining + reaching-definition and value-range dataflow + structural agreement",
     design="3/C01")
@@ -128,7 +128,7 @@ CHECKS["C13"] = dict(
          "tracker, `sequential`/`happy_eyeballs` all, unknown algorithms are refused, list/count/timeout arguments reach every track unchanged, "
          "happy eyeballs makes one track per family; (R5) resolution failure/overall-timer expiry => ENOENT, attempt-timer expiry => ETIMEDOUT + "
          "abort + next address, EAGAIN only while a track is in progress; (R6) timers are armed with the configured timeouts; (R7) with a local "
-         "address every attempt binds before connect() and a failed bind never reaches connect(), and the configured address is handed unchanged, call site by call site, to every attempt track; (R8) the resolver's result count is bounded by the caller's capacity.",
+         "address every attempt binds before connect() and a failed bind never reaches connect(), and the configured address is handed unchanged, call site by call site, to every attempt track; (R8) the resolver's result count is bounded by the caller's capacity. (R9) no floating-point value is implicitly converted into a stored integer field of the repository's records (dns.timeout, tcp.connect_timeout stay doubles); (R10) on every path through the abort helper the attempt in progress is dissolved (connect to AF_UNSPEC) before the next address is tried, with out-parameter constants (timer_mgr_ack leaves the id at -1) tracked across the call.",
     note=TRUSTED + " Library functions outside escape.RETAINING_EXT are assumed not to keep pointer arguments.",
     technique="escape analysis + feasible-path search in loop SCCs + errno-source tracking + argument-flow/control-dependence checks",
     design="3/C13")
@@ -146,7 +146,7 @@ CHECKS["C11"] = dict(
          "xcm.local_addr dispatch inlined) lies behind the initial-state guard and the setter has an EACCES exit; accept tests the three connect-only "
          "attributes before accept4(); (R6) set_attrs after init and before connect/server/accept, defaults before the user's map; (R7) xcm.service "
          "succeeds only on an equal edge of a comparison with `any` or the actual service, else EINVAL; xcm.blocking is xcm_set_blocking; (R8) scope "
-         "inheritance at init. (R9) accepted TLS sockets inherit every TLS policy attribute unconditionally. Not decided: that the kernel honours setsockopt, the actual source address, behaviour in every life-cycle state at run time.",
+         "inheritance at init. (R9) accepted TLS sockets inherit every TLS policy attribute unconditionally. Not decided: that the kernel honours setsockopt, the actual source address, behaviour in every life-cycle state at run time. (R1) equality decided by exact folding, one run per field; (R2 also) a failed setsockopt wrapper makes tcp_opts_effectuate fail whatever later wrappers answer; (R10) setters answer 0, -1 or another setter's status; (R11) a socket's context is built from its own items.",
     note=TRUSTED,
     technique="field-coverage agreement + path exploration with guard facts and inlining + argument-flow checks",
     design="3/C11")
@@ -181,7 +181,7 @@ CHECKS["C14"] = dict(
          "(R6) nothing reachable from ctl_process (function pointers resolved) is an attribute setter, a transport data/lifecycle op or a store to "
          "connection state, and ctl_process is errno-transparent (derived), with a positive control; (R7) close passes owner=true which reaches "
          "unlink. (R3 also) the attribute name is client data: every tag-asserting accessor of the attribute tree reachable from ctl_process is called only under the matching tag test. Not decided: equality of replies with in-process values (the 512-byte value field makes large attributes unrepresentable by "
-         "design - they are left out), concurrency of sessions at run time.",
+         "design - they are left out), concurrency of sessions at run time. (R9) ut_is_readable, folded exactly over poll()'s result and all event-bit combinations, is true iff one descriptor is ready with POLLIN: a reset or hung-up session is read and thereby removed.",
     note=TRUSTED + " Two table entries of R2 rest on premises re-checked on every run (element copy into the session table; no writer of num_clients reachable from process_client).",
     technique="typestate exploration + bounded-write dataflow with record invariants + enum/table agreement + call-graph reachability",
     design="3/C14")
@@ -200,7 +200,7 @@ CHECKS["C08"] = dict(
          "unchecked to a function that asserts it valid (known findings K2: two sites); (R8) the UXF path is recorded only after a successful bind and unlinked "
          "by the owner's close; (R9) every object a function obtains from a creator in a 48-entry creator/releaser table is released, stored, returned or handed "
          "over on every path; (R10) no data-path op is reachable on a socket between init and connect/server/accept (known finding K6). (R11) teardown loops over a counted collection run until it is empty (no index advancing against a count the body decrements). Not decided: equality of "
-         "the heap and descriptor table before/after (R3/R9 are coverage and per-function ownership, not a leak proof); behaviour of a forked child at run time.",
+         "the heap and descriptor table before/after (R3/R9 are coverage and per-function ownership, not a leak proof); behaviour of a forked child at run time. (R12) the always-readable descriptor is shared by at most 100 epoll instances (kernel path limit for nested epoll; beyond it EPOLL_CTL_ADD fails and K2's assertion aborts).",
     note=TRUSTED + " The kernel drops a descriptor's epoll registrations when it is closed; registration tables (xpoll) keep descriptor numbers without owning them.",
     technique="typestate abstract interpretation with inlining and parameter binding + ownership dataflow + context-sensitive call-graph reachability",
     design="3/C08")
@@ -219,7 +219,7 @@ CHECKS["C09"] = dict(
          "enable_hostname_validation is consistent with one of the six documented invalid combinations, refusals say EINVAL, and finalize precedes the "
          "context lookup in connect, server and accept; (R7) load_ssl_ctx installs trusted CAs/CRLs iff given and allows partial chains only without CRLs; "
          "hostname flags NO_WILDCARDS|ALWAYS_CHECK_SUBJECT. (R5) every policy field is inherited unconditionally (a copy may depend on tests of the same field only); (R8) names are appended to the socket's peer-name list only where the list was absent: explicit tls.peer_names are the whole set. Not decided: the outcome matrix against generated certificates (that is the behaviour), "
-         "OpenSSL's chain building, extended key usage checks (inside OpenSSL).",
+         "OpenSSL's chain building, extended key usage checks (inside OpenSSL). (R9) every context lookup passes the four credential items of the socket whose ssl_ctx receives the result; (R10) each default credential file has its own default and per-namespace template.",
     note=TRUSTED + " Numeric values of the OpenSSL flag macros are taken from its stable ABI.",
     technique="path exploration + exact folding of the policy function over all inputs + control dependence / must-pass + field coverage + path-fact analysis",
     design="3/C09")
@@ -234,7 +234,7 @@ CHECKS["C18"] = dict(
          "network namespace keep nothing in static storage; (R6) the by-file and by-value setter of each credential write the same slot through a helper that "
          "releases the previous content; (R7) every edge of ctx_store_get_ctx that gives up assigns EPROTO on all its paths to the exit or fails through a "
          "callee all of whose failing exits carry EPROTO (errno facts), else every caller must set it. Not decided: that later connections see replaced files "
-         "(kernel and timing), that established connections are unaffected (OpenSSL object lifetime); thread-safety of the cache is C15's.",
+         "(kernel and timing), that established connections are unaffected (OpenSSL object lifetime); thread-safety of the cache is C15's. (R8) the namespace-name lookup keeps no state between calls; (R9) context items and result belong to one socket; (R10) default/per-namespace file templates agree; (R11) failed loads and handshakes leave the OpenSSL error queue empty.",
     note=TRUSTED,
     technique="path exploration (get/put typestate, ordering typestate) + argument coverage + control dependence / must-pass + errno facts",
     design="3/C18")
@@ -247,7 +247,7 @@ CHECKS["C02"] = dict(
          "(R2) every SSL object is switched to PARTIAL_WRITE|ACCEPT_MOVING_WRITE_BUFFER between SSL_new and the handshake; (R3) no send op answers -1/EAGAIN on "
          "a path where a callee that captures its input on failure (effect table: SSL_write) was given the caller's bytes - known finding K4, replayed; (R5) the "
          "custom BIO clears its retry flags before each lower-layer call, maps EAGAIN to the retry flag of its direction and a 0 read to EOF; (R6) the blocking "
-         "byte-stream loop recomputes pointer and length from the progress counter. (R7) SSL_write is reached only with a length >= 1 (a zero-sized send is answered before it reaches OpenSSL). Counters are C17's.",
+         "byte-stream loop recomputes pointer and length from the progress counter. (R7) SSL_write is reached only with a length >= 1 (a zero-sized send is answered before it reaches OpenSSL). Counters are C17's. (R8) a TLS protocol error and the PEM loaders of the context store leave the thread's OpenSSL error queue drained; (R9) contexts are created with session tickets off (a send-only client's graceful close stays graceful; defect F19 repaired).",
     note=TRUSTED + " Effect table: send(2) takes nothing when it fails; SSL_write returning <= 0 with WANT_* keeps the record for the retry.",
     technique="argument-identity checks + path exploration with a capture-effect table and errno facts + typestate + control dependence",
     design="3/C02")
@@ -264,7 +264,7 @@ CHECKS["C04"] = dict(
          "the handshaking state hands ssl_wants to the sub-socket; every OpenSSL I/O site passes its result to process_ssl_event; (R7) connect() is issued only "
          "with the descriptor registered for EPOLLOUT, EINPROGRESS and a delayed track arm a timer; (R8) the resolver's entry points end in update_xpoll and a "
          "finished query arms a zero timer; (R9) the blocking forms poll the socket's own descriptor for POLLIN after await(). (R10) the btls connection update helper is folded exactly over its 48 ready-state inputs (awaited condition x direction of the last incomplete OpenSSL call x what it wanted x SSL_has_pending): every row rings the bell or stores and updates the sub-socket's condition, decrypted bytes ring when RECEIVABLE is awaited, an awaited direction OpenSSL was not asked about is watched on the sub-socket; (R11) send/receive/finish of btcp and btls call the state-advancing helper before the first test of the connection state. Not decided: boundedness in "
-         "time; what OpenSSL does with a wake-up (trusted).",
+         "time; what OpenSSL does with a wake-up (trusted). (R3 also) the value handed to the sub-socket is built from the socket's own condition and only or-ed afterwards; (R12) clock_gettime in the timer's time source uses the clock the timerfd was created on.",
     note=TRUSTED,
     technique="must-follow / must-pass path rules with inlining + switch-case typestate + control dependence + constant-flag checks",
     design="3/C04")
@@ -275,7 +275,7 @@ CHECKS["C16"] = dict(
          "by that re-evaluation; (R3) the condition-to-event mappings of the leaf transports are decided exactly - ux's conn_event/server_event folded over all "
          "8 condition values, btcp's flags or-ed only under the matching condition bit - and btls in state ready with nothing awaited neither rings its bell nor "
          "asks the sub-socket for anything, and the same helper folded exactly over its 48 ready-state inputs never hands down more interest than is awaited or OpenSSL wants; (R4) every expired edge of timer_mgr_has_expired is followed on all paths by ack/cancel/reschedule of that timer; "
-         "(R5) a successful resolver result and a handed-over connected descriptor are deregistered from the epoll set.",
+         "(R5) a successful resolver result and a handed-over connected descriptor are deregistered from the epoll set. (R6) the epoll wrapper skips epoll_ctl only when the stored mask equals the requested one; (R7) the control listener is parked exactly while the session table is full; (R8) descriptors are deregistered before they are closed (one named exception with its reason); (R9) send/receive/finish are followed by the socket's update.",
     note=TRUSTED,
     technique="who-may-write queries + control dependence / must-follow + exact folding of mapping functions + path exploration",
     design="3/C16")
